@@ -107,6 +107,11 @@ class Gen:
         aoft = self.pick("aoftimes", [1, 1, 1, 0, 2])
         recycle = 0 if self.p.get("p_ack", 0) > 0 else r.choice([0, 1, 1])
         lines = ["case %d %d %d %d" % (cid, T0 + r.choice([0, 0, 3, 7, 13, 15]), aoft, recycle)]
+        ackcfg = 1
+        flushed = set()
+        if self.p.get("p_ack", 0) > 0:
+            ackcfg = r.choice([1, 1, 2, 2, 3])
+            lines.append("ackcfg %d" % ackcfg)
         p_unlock = self.p.get("p_unlock", 0.25)
         p_time = self.p.get("p_time", 0.25)
         nacks = 0
@@ -128,7 +133,11 @@ class Gen:
                     ln = self.from_aof(ln); self.stats["from_aof"] += 1
                 lines.append(ln)
             elif x < p_time + p_unlock + self.p.get("p_ackact", 0.0):
-                lines.append("ack %d %d" % (r.randint(0, max(0, nacks + 2)), r.choice([0, 1, 1])))
+                idx = r.randint(0, max(0, nacks + 2))
+                kind = "aofed" if (ackcfg == 1 or (idx not in flushed and r.random() < 0.5)) else "acked"
+                if kind == "aofed":
+                    flushed.add(idx)
+                lines.append("ack %d %d %s" % (idx, r.choice([0, 1, 1, 1]), kind))
                 nacks += 1
                 self.stats["ack"] += 1
             elif x < p_time + p_unlock + self.p.get("p_ackact", 0.0) + self.p.get("p_role", 0.0):
@@ -147,7 +156,10 @@ class Gen:
             # answer every pending ack, then let every timeout / expiry pass (minute flags: up to 3*60+; unlimited: unlock-first)
             if self.p.get("p_ack", 0) > 0:
                 for i in range(nacks + 40):
-                    lines.append("ack %d 1" % i)
+                    if i not in flushed:
+                        lines.append("ack %d 1 aofed" % i)
+                    for _ in range(ackcfg):
+                        lines.append("ack %d 1 acked" % i)
             for k in keys:
                 for _ in range(3):
                     self.req += 1
@@ -161,6 +173,19 @@ class Gen:
                     lines.append("req 1 U %d 1 0 %d 0 0 0 0 0 0 -" % (self.req, k))
             for step in [1] * 20:
                 lines += ["adv %d" % step, "sweept", "sweepe"]
+            if self.p.get("p_ack", 0) > 0:
+                # acknowledgement events always arrive eventually (the leader's own flush): a last round for the
+                # registrations created during the drain, then let the resulting expiries pass
+                for i in range(nacks + 60):
+                    lines.append("ack %d 1 acked" % i)
+                    lines.append("ack %d 1 acked" % i)
+                    lines.append("ack %d 1 acked" % i)
+                for k in keys:
+                    for _ in range(4):
+                        self.req += 1
+                        lines.append("req 1 U %d 1 0 %d 0 0 0 0 0 0 -" % (self.req, k))
+                for step in [1] * 12 + [60] * 5:
+                    lines += ["adv %d" % step, "sweept", "sweepe"]
         lines.append("end")
         return lines
 
@@ -270,7 +295,7 @@ class Runner:
                 ctx.notes.append("derive_fixes unavailable: %s" % e)
         self.impl = ctx.go_build("engine_implrun", os.path.join(vlib.VERIF, "harness", "engine"),
                                  overlay={"server/zz_verif_engine.go": "harness/engine/inj/zz_verif_engine.go"}, pkg="./cmd/implrun")
-        self.model = ctx.ocaml_model("engine", deps=["Engine/Engine2.vo"])
+        self.model = ctx.ocaml_model("engine", deps=["Engine/Ack.vo"])
         self.tmp = tempfile.mkdtemp(prefix="verif-eng-")
 
     def run_cases(self, cases):
